@@ -860,7 +860,9 @@ fn groups() -> RunResult {
                     let mut gone: Vec<bool> = vec![false; members];
                     for s in steps.iter().filter(|s| s.client == c) {
                         match s.op {
-                            GOp::Leave(k) => gone[k] = true,
+                            // (only a Leave that released the memberships itself has completed the leaving when it returns: one
+                            // that found none may have been overtaken by another client's Leave that is still under way)
+                            GOp::Leave(k) => gone[k] |= outcome(s.id) == Some(Outcome::Found(true)),
                             GOp::Rejoin(k) => gone[k] = false,
                             GOp::Send(_) | GOp::SendFailing => {
                                 for k in (0..members).filter(|k| gone[*k]) {
